@@ -1,6 +1,1118 @@
-//! C39 — not implemented yet.
-use mc_core::Ctx;
+//! C39 — account deposit rules are enforced exactly.
+//!
+//! Shape H (explicit-state history exploration), two layers:
+//!
+//! 1. configuration layer: breadth-first search over *configuration transactions* of a real account B
+//!    (`set_default_deposit_rule` x3, `set/remove_resource_preference` over {XRD, R1, R2}, `add/remove_authorized_
+//!    depositor` over {Bres (resource badge), Bnf#1 (non-fungible badge)}, "B receives R1" / "B's R1 vault is
+//!    emptied"). A state is the history that reaches it; states are merged by a fingerprint made of the raw
+//!    stored configuration of B (deposit-rule field, every preference / depositor entry *including removed
+//!    entries*, vault entries with their contents) together with the reference model's configuration.
+//! 2. in **every** configuration state, **every** deposit attempt of the alphabet is executed on the real
+//!    engine from that state (and rolled back): method x batch x named badge x proof present.
+//!
+//! Reference = the decision table of the property statement, written on the model configuration (maps and
+//! sets updated by the configuration ops, never read from the engine):
+//!   allowed(r)  = preference(r) if an explicit preference exists, else by the default rule
+//!                 (Accept: yes, Reject: no, AllowExisting: r is XRD or B already holds r);
+//!   all allowed                                  -> everything is deposited;
+//!   else badge named, listed and proven          -> everything is deposited;
+//!   else badge named, listed, not proven         -> the call fails;
+//!   else                                         -> nothing deposited: refund variants return all buckets
+//!                                                   untouched, abort variants fail;
+//!   always: only B's vaults of the deposited resources change.
+//! Statement-silent (informational only): AllowExisting when B's vault exists but is empty ("holds"?), the empty
+//! batch, plain `deposit`/`deposit_batch`, the RejectedDeposit events, nodes written outside B.
+use crate::util::*;
+use mc_core::{bfs, par_for, Ctx, Level, Local, Machine};
+use mc_ledger::*;
+use radix_engine::blueprints::account::*;
+use serde_json::{json, Value};
+use std::collections::{BTreeMap, BTreeSet};
+use std::sync::Mutex;
 
-pub fn run(_ctx: Ctx) -> ! {
-    mc_core::machinery_error("C39: not implemented")
+// ------------------------------------------------------------------------------------------------
+// alphabets
+// ------------------------------------------------------------------------------------------------
+
+#[derive(Clone, Copy, Debug, PartialEq, Eq, PartialOrd, Ord, Hash)]
+pub enum Res {
+    Xrd,
+    R1,
+    R2,
+}
+const RES: [Res; 3] = [Res::Xrd, Res::R1, Res::R2];
+
+#[derive(Clone, Copy, Debug, PartialEq, Eq, PartialOrd, Ord, Hash)]
+pub enum Badge {
+    Bres,
+    Bnf1,
+}
+const BADGES: [Badge; 2] = [Badge::Bres, Badge::Bnf1];
+
+#[derive(Clone, Copy, Debug, PartialEq, Eq, PartialOrd, Ord, Hash)]
+pub enum Def {
+    Accept,
+    Reject,
+    AllowExisting,
+}
+
+#[derive(Clone, Copy, Debug, PartialEq, Eq, PartialOrd, Ord, Hash)]
+pub enum Pref {
+    Allowed,
+    Disallowed,
+}
+
+#[derive(Clone, Copy, Debug, PartialEq, Eq, PartialOrd, Ord, Hash)]
+pub enum Op {
+    SetDefault(Def),
+    SetPref(Res, Pref),
+    RemovePref(Res),
+    AddDep(Badge),
+    RemoveDep(Badge),
+    /// A sends 5 R1 into B with the plain, owner-authorised `deposit`
+    HoldR1,
+    /// B's owner withdraws all R1 (the vault stays, empty)
+    EmptyR1,
+}
+
+fn all_ops() -> Vec<Op> {
+    let mut v = vec![Op::SetDefault(Def::Reject), Op::SetDefault(Def::AllowExisting), Op::SetDefault(Def::Accept)];
+    for r in RES {
+        v.push(Op::SetPref(r, Pref::Disallowed));
+        v.push(Op::SetPref(r, Pref::Allowed));
+        v.push(Op::RemovePref(r));
+    }
+    for b in BADGES {
+        v.push(Op::AddDep(b));
+        v.push(Op::RemoveDep(b));
+    }
+    v.push(Op::HoldR1);
+    v.push(Op::EmptyR1);
+    v
+}
+
+#[derive(Clone, Copy, Debug, PartialEq, Eq, PartialOrd, Ord, Hash)]
+pub enum Method {
+    RefundOne,
+    AbortOne,
+    RefundBatch,
+    AbortBatch,
+    PlainOne,
+    PlainBatch,
+}
+
+#[derive(Clone, Copy, Debug, PartialEq, Eq, PartialOrd, Ord, Hash)]
+pub enum ProofKind {
+    NoProof,
+    OfBres,
+    OfBnf1,
+    OfBnf2,
+}
+
+#[derive(Clone, Copy, Debug, PartialEq, Eq)]
+pub struct Attempt {
+    pub method: Method,
+    pub batch: usize,
+    pub named: Option<Badge>,
+    pub proof: ProofKind,
+    /// B's owner signs (only varied for the plain methods)
+    pub owner: bool,
+}
+
+/// one bucket: fungible amount of a resource, or one non-fungible id of R2
+#[derive(Clone, Debug, PartialEq, Eq)]
+pub enum Bk {
+    F(Res, Decimal),
+    N(Res, u64),
+}
+impl Bk {
+    fn res(&self) -> Res {
+        match self {
+            Bk::F(r, _) | Bk::N(r, _) => *r,
+        }
+    }
+}
+
+fn batches() -> Vec<Vec<Bk>> {
+    vec![
+        vec![Bk::F(Res::Xrd, dec!(1))],
+        vec![Bk::F(Res::R1, dec!(1))],
+        vec![Bk::N(Res::R2, 1)],
+        vec![Bk::F(Res::R1, dec!(1)), Bk::N(Res::R2, 1)],
+        vec![Bk::F(Res::Xrd, dec!(1)), Bk::N(Res::R2, 1)],
+        vec![Bk::F(Res::R1, dec!(1)), Bk::F(Res::R1, dec!(2))],
+        vec![],
+    ]
+}
+
+fn badge_combos() -> Vec<(Option<Badge>, ProofKind)> {
+    vec![
+        (None, ProofKind::NoProof),
+        (None, ProofKind::OfBres),
+        (Some(Badge::Bres), ProofKind::NoProof),
+        (Some(Badge::Bres), ProofKind::OfBres),
+        (Some(Badge::Bres), ProofKind::OfBnf1), // a proof, but of another badge
+        (Some(Badge::Bnf1), ProofKind::NoProof),
+        (Some(Badge::Bnf1), ProofKind::OfBnf1),
+        (Some(Badge::Bnf1), ProofKind::OfBnf2), // same badge resource, other id
+    ]
+}
+
+fn all_attempts() -> Vec<Attempt> {
+    let mut v = vec![];
+    for method in [Method::RefundOne, Method::AbortOne] {
+        for batch in 0..3 {
+            for (named, proof) in badge_combos() {
+                v.push(Attempt { method, batch, named, proof, owner: false });
+            }
+        }
+    }
+    for method in [Method::RefundBatch, Method::AbortBatch] {
+        for batch in 0..batches().len() {
+            for (named, proof) in badge_combos() {
+                v.push(Attempt { method, batch, named, proof, owner: false });
+            }
+        }
+    }
+    for owner in [true, false] {
+        v.push(Attempt { method: Method::PlainOne, batch: 1, named: None, proof: ProofKind::NoProof, owner });
+        v.push(Attempt { method: Method::PlainOne, batch: 2, named: None, proof: ProofKind::NoProof, owner });
+        v.push(Attempt { method: Method::PlainBatch, batch: 3, named: None, proof: ProofKind::NoProof, owner });
+    }
+    v
+}
+
+fn proven(named: Badge, proof: ProofKind) -> bool {
+    matches!((named, proof), (Badge::Bres, ProofKind::OfBres) | (Badge::Bnf1, ProofKind::OfBnf1))
+}
+
+// ------------------------------------------------------------------------------------------------
+// reference model
+// ------------------------------------------------------------------------------------------------
+
+#[derive(Clone, Debug, PartialEq, Eq)]
+pub struct Model {
+    pub default: Def,
+    pub prefs: BTreeMap<Res, Pref>,
+    pub deps: BTreeSet<Badge>,
+    /// what B has ever received, by the history: resource -> current amount (entry = "a vault was needed")
+    pub held: BTreeMap<Res, Decimal>,
+}
+
+impl Model {
+    fn new() -> Self {
+        Model { default: Def::Accept, prefs: BTreeMap::new(), deps: BTreeSet::new(), held: BTreeMap::new() }
+    }
+    /// `empty_is_held`: reading of "already holds" for a resource B received and fully gave away again
+    fn allowed(&self, r: Res, empty_is_held: bool) -> bool {
+        match self.prefs.get(&r) {
+            Some(Pref::Allowed) => true,
+            Some(Pref::Disallowed) => false,
+            None => match self.default {
+                Def::Accept => true,
+                Def::Reject => false,
+                Def::AllowExisting => {
+                    r == Res::Xrd
+                        || match self.held.get(&r) {
+                            None => false,
+                            Some(a) => a.is_positive() || empty_is_held,
+                        }
+                }
+            },
+        }
+    }
+}
+
+#[derive(Clone, Copy, Debug, PartialEq, Eq)]
+pub enum Exp {
+    DepositedAllAllowed,
+    DepositedByBadge,
+    Refunded,
+    FailBadgeNotProven,
+    FailAbort,
+}
+
+impl Exp {
+    fn label(&self) -> &'static str {
+        match self {
+            Exp::DepositedAllAllowed => "deposited(all-allowed)",
+            Exp::DepositedByBadge => "deposited(listed-badge-proven)",
+            Exp::Refunded => "refunded(all-buckets-returned)",
+            Exp::FailBadgeNotProven => "failed(listed-badge-not-proven)",
+            Exp::FailAbort => "failed(abort-variant)",
+        }
+    }
+    fn deposited(&self) -> bool {
+        matches!(self, Exp::DepositedAllAllowed | Exp::DepositedByBadge)
+    }
+}
+
+/// The statement's decision table.
+fn expect(m: &Model, at: &Attempt, batch: &[Bk], empty_is_held: bool) -> Exp {
+    let refund = matches!(at.method, Method::RefundOne | Method::RefundBatch);
+    let any_refused = batch.iter().any(|b| !m.allowed(b.res(), empty_is_held));
+    if !any_refused {
+        return Exp::DepositedAllAllowed;
+    }
+    match at.named {
+        Some(b) if m.deps.contains(&b) => {
+            if proven(b, at.proof) {
+                Exp::DepositedByBadge
+            } else {
+                Exp::FailBadgeNotProven
+            }
+        }
+        _ => {
+            if refund {
+                Exp::Refunded
+            } else {
+                Exp::FailAbort
+            }
+        }
+    }
+}
+
+// ------------------------------------------------------------------------------------------------
+// world
+// ------------------------------------------------------------------------------------------------
+
+#[derive(Clone, Debug)]
+pub struct W {
+    pub a: ComponentAddress,
+    pub sig_a: NonFungibleGlobalId,
+    pub b: ComponentAddress,
+    pub sig_b: NonFungibleGlobalId,
+    pub c: ComponentAddress,
+    pub r1: ResourceAddress,
+    pub r2: ResourceAddress,
+    pub bres: ResourceAddress,
+    pub bnf: ResourceAddress,
+}
+
+impl W {
+    fn res(&self, r: Res) -> ResourceAddress {
+        match r {
+            Res::Xrd => XRD,
+            Res::R1 => self.r1,
+            Res::R2 => self.r2,
+        }
+    }
+    fn badge(&self, b: Badge) -> ResourceOrNonFungible {
+        match b {
+            Badge::Bres => ResourceOrNonFungible::Resource(self.bres),
+            Badge::Bnf1 => ResourceOrNonFungible::NonFungible(NonFungibleGlobalId::new(self.bnf, NonFungibleLocalId::integer(1))),
+        }
+    }
+}
+
+/// A (source, pays fees, holds all resources and badges), C (sink for whatever the call returns, default
+/// rule Accept, already holds every resource), B (subject: fresh account, owner = sig_b, no vault at all).
+pub fn build_root() -> (Snap, W) {
+    let mut sim = new_sim();
+    let (pk_a, _, a) = sim.new_account(true);
+    let (_pk_c, _, c) = sim.new_account(true);
+    let (pk_b, _) = sim.new_key_pair();
+    let sig_a = NonFungibleGlobalId::from_public_key(&pk_a);
+    let sig_b = NonFungibleGlobalId::from_public_key(&pk_b);
+    let r = sim.execute_manifest(
+        ManifestBuilder::new().lock_fee_from_faucet().new_account_advanced(OwnerRole::Fixed(rule!(require(sig_b.clone()))), None).build(),
+        vec![],
+    );
+    let b = r.expect_commit_success().new_component_addresses()[0];
+    let r1 = sim.create_fungible_resource(dec!(1000), 18, a);
+    let r2 = sim.create_non_fungible_resource(a);
+    let bres = sim.create_fungible_resource(dec!(10), 0, a);
+    let bnf = sim.create_non_fungible_resource(a);
+    let w = W { a, sig_a, b, sig_b, c, r1, r2, bres, bnf };
+    // C already holds R1 and R2#3 so that refunds never create vaults in C
+    let m = ManifestBuilder::new()
+        .lock_fee(a, dec!(20))
+        .withdraw_from_account(a, r1, dec!(7))
+        .withdraw_non_fungibles_from_account(a, r2, [NonFungibleLocalId::integer(3)])
+        .try_deposit_entire_worktop_or_abort(c, None)
+        .build();
+    sim.execute_manifest(m, vec![w.sig_a.clone()]).expect_commit_success();
+    (sim.create_snapshot(), w)
+}
+
+// ------------------------------------------------------------------------------------------------
+// reading B back from the database
+// ------------------------------------------------------------------------------------------------
+
+fn holdings(sim: &mut Sim, acct: ComponentAddress) -> Result<BTreeMap<ResourceAddress, Holding>, String> {
+    let raw = collection_raw(sim, acct.as_node_id(), AccountCollection::ResourceVaultKeyValue.collection_index());
+    let mut out = BTreeMap::new();
+    for (k, v) in raw {
+        let ra: ResourceAddress = scrypto_decode(&k).map_err(|e| format!("vault key: {e:?}"))?;
+        match kv_value::<AccountResourceVaultEntryPayload>(&v)? {
+            Some(p) => {
+                let vault = p.fully_update_and_into_latest_version();
+                out.insert(ra, vault_holding(sim, *vault.0.as_node_id()));
+            }
+            None => {
+                out.insert(ra, Holding { amount: Decimal::ZERO, ids: BTreeSet::new(), vault: None });
+            }
+        }
+    }
+    Ok(out)
+}
+
+/// Raw stored configuration of an account: deposit-rule field, preference entries, depositor entries.
+fn config_raw(sim: &Sim, acct: ComponentAddress) -> (Option<Vec<u8>>, BTreeMap<Vec<u8>, Vec<u8>>, BTreeMap<Vec<u8>, Vec<u8>>) {
+    let rule = sim.substate_db().get_raw_substate(acct.as_node_id(), MAIN_BASE_PARTITION, SubstateKey::Field(AccountField::DepositRule.field_index()));
+    let prefs = collection_raw(sim, acct.as_node_id(), AccountCollection::ResourcePreferenceKeyValue.collection_index());
+    let deps = collection_raw(sim, acct.as_node_id(), AccountCollection::AuthorizedDepositorKeyValue.collection_index());
+    (rule, prefs, deps)
+}
+
+// ------------------------------------------------------------------------------------------------
+// the configuration machine
+// ------------------------------------------------------------------------------------------------
+
+pub struct Cfg {
+    pub root: Snap,
+    pub w: W,
+    pub batches: Vec<Vec<Bk>>,
+    /// fingerprint -> lexicographically least shortest history (filled during the search)
+    pub found: Mutex<BTreeMap<Vec<u8>, Vec<Op>>>,
+}
+
+pub struct St {
+    pub sim: Sim,
+    pub model: Model,
+    pub hist: Vec<Op>,
+    pub fp: Vec<u8>,
+}
+
+impl Cfg {
+    fn op_manifest(&self, model: &Model, op: &Op) -> (TransactionManifestV1, Vec<NonFungibleGlobalId>) {
+        let w = &self.w;
+        let mb = ManifestBuilder::new().lock_fee(w.a, dec!(20));
+        let both = vec![w.sig_a.clone(), w.sig_b.clone()];
+        let m = match op {
+            Op::SetDefault(d) => {
+                let d = match d {
+                    Def::Accept => DefaultDepositRule::Accept,
+                    Def::Reject => DefaultDepositRule::Reject,
+                    Def::AllowExisting => DefaultDepositRule::AllowExisting,
+                };
+                mb.call_method(w.b, ACCOUNT_SET_DEFAULT_DEPOSIT_RULE_IDENT, AccountSetDefaultDepositRuleInput { default: d })
+            }
+            Op::SetPref(r, p) => {
+                let p = match p {
+                    Pref::Allowed => ResourcePreference::Allowed,
+                    Pref::Disallowed => ResourcePreference::Disallowed,
+                };
+                mb.call_method(w.b, ACCOUNT_SET_RESOURCE_PREFERENCE_IDENT, AccountSetResourcePreferenceInput { resource_address: w.res(*r), resource_preference: p })
+            }
+            Op::RemovePref(r) => mb.call_method(w.b, ACCOUNT_REMOVE_RESOURCE_PREFERENCE_IDENT, AccountRemoveResourcePreferenceInput { resource_address: w.res(*r) }),
+            Op::AddDep(b) => mb.call_method(w.b, ACCOUNT_ADD_AUTHORIZED_DEPOSITOR_IDENT, AccountAddAuthorizedDepositorInput { badge: w.badge(*b) }),
+            Op::RemoveDep(b) => mb.call_method(w.b, ACCOUNT_REMOVE_AUTHORIZED_DEPOSITOR_IDENT, AccountRemoveAuthorizedDepositorInput { badge: w.badge(*b) }),
+            Op::HoldR1 => mb.withdraw_from_account(w.a, w.r1, dec!(5)).take_all_from_worktop(w.r1, "x").deposit(w.b, "x"),
+            Op::EmptyR1 => {
+                let amt = model.held.get(&Res::R1).copied().unwrap_or(dec!(5));
+                mb.withdraw_from_account(w.b, w.r1, amt).try_deposit_entire_worktop_or_abort(w.a, None)
+            }
+        };
+        (m.build(), both)
+    }
+
+    /// Apply a configuration op to the real account and (on success) to the model.
+    fn apply(&self, st: &mut St, op: &Op) -> Result<String, (String, String)> {
+        let (m, proofs) = self.op_manifest(&st.model, op);
+        let receipt = match exec(&mut st.sim, m, proofs) {
+            Ok(r) => r,
+            Err(p) => return Err((format!("panic@{}", mc_core::last_panic_location()), format!("configuration transaction {op:?} panicked: {p}"))),
+        };
+        st.hist.push(*op);
+        let ok = is_success(&receipt);
+        if ok {
+            match op {
+                Op::SetDefault(d) => st.model.default = *d,
+                Op::SetPref(r, p) => {
+                    st.model.prefs.insert(*r, *p);
+                }
+                Op::RemovePref(r) => {
+                    st.model.prefs.remove(r);
+                }
+                Op::AddDep(b) => {
+                    st.model.deps.insert(*b);
+                }
+                Op::RemoveDep(b) => {
+                    st.model.deps.remove(b);
+                }
+                Op::HoldR1 => {
+                    let e = st.model.held.entry(Res::R1).or_insert(Decimal::ZERO);
+                    *e = e.checked_add(dec!(5)).unwrap();
+                }
+                Op::EmptyR1 => {
+                    st.model.held.insert(Res::R1, Decimal::ZERO);
+                }
+            }
+        }
+        let kind = match op {
+            Op::SetDefault(_) => "set-default",
+            Op::SetPref(..) => "set-preference",
+            Op::RemovePref(_) => "remove-preference",
+            Op::AddDep(_) => "add-depositor",
+            Op::RemoveDep(_) => "remove-depositor",
+            Op::HoldR1 => "owner-deposit-r1",
+            Op::EmptyR1 => "owner-withdraw-r1",
+        };
+        Ok(format!("config:{kind}:{}", receipt_class(&receipt)))
+    }
+
+    fn replay(&self, hist: &[Op]) -> St {
+        let mut st = self.init();
+        for op in hist {
+            if let Err((k, w)) = self.apply(&mut st, op) {
+                mc_core::machinery_error(&format!("replay of a configuration history failed: {k}: {w}"));
+            }
+        }
+        st
+    }
+
+    fn compute_fp(&self, st: &mut St) -> Vec<u8> {
+        let s = format!("{}#{:?}", self.real_fp(&mut st.sim), st.model);
+        mc_core::fp128(s.as_bytes())
+    }
+
+    fn real_fp(&self, sim: &mut Sim) -> String {
+        let (rule, prefs, deps) = config_raw(sim, self.w.b);
+        // vault ids depend on transaction hashes (history), contents do not
+        let held: Vec<String> = match holdings(sim, self.w.b) {
+            Ok(h) => h.iter().map(|(ra, h)| format!("{}:{}:{:?}:{}", mc_core::hex(ra.as_node_id().as_bytes()), h.amount, h.ids, h.vault.is_some())).collect(),
+            Err(e) => vec![format!("unreadable:{e}")],
+        };
+        format!("{rule:?}|{prefs:?}|{deps:?}|{held:?}")
+    }
+}
+
+impl Machine for Cfg {
+    type Op = Op;
+    type St = St;
+
+    fn init(&self) -> St {
+        let mut st = St { sim: sim_from(&self.root), model: Model::new(), hist: vec![], fp: vec![] };
+        st.fp = self.compute_fp(&mut st);
+        st
+    }
+
+    fn ops(&self, st: &St, _depth: usize) -> Vec<Op> {
+        let holds = st.model.held.get(&Res::R1).map(|a| a.is_positive()).unwrap_or(false);
+        all_ops()
+            .into_iter()
+            .filter(|op| match op {
+                Op::HoldR1 => !holds,
+                Op::EmptyR1 => holds,
+                _ => true,
+            })
+            .collect()
+    }
+
+    fn fork(&self, st: &St) -> Option<St> {
+        Some(St { sim: sim_from(&st.sim.create_snapshot()), model: st.model.clone(), hist: st.hist.clone(), fp: st.fp.clone() })
+    }
+
+    fn step(&self, st: &mut St, op: &Op) -> Result<String, (String, String)> {
+        let class = self.apply(st, op)?;
+        st.fp = self.compute_fp(st);
+        let fp = st.fp.clone();
+        let mut g = self.found.lock().unwrap();
+        let better = match g.get(&fp) {
+            None => true,
+            Some(old) => (st.hist.len(), &st.hist) < (old.len(), old),
+        };
+        if better {
+            g.insert(fp, st.hist.clone());
+        }
+        Ok(class)
+    }
+
+    fn fingerprint(&self, st: &St) -> Vec<u8> {
+        st.fp.clone()
+    }
+}
+
+// ------------------------------------------------------------------------------------------------
+// deposit attempts
+// ------------------------------------------------------------------------------------------------
+
+struct Pre {
+    b_hold: BTreeMap<ResourceAddress, Holding>,
+    c_hold: BTreeMap<ResourceAddress, Holding>,
+    a_hold: BTreeMap<ResourceAddress, Holding>,
+    b_cfg: (Option<Vec<u8>>, BTreeMap<Vec<u8>, Vec<u8>>, BTreeMap<Vec<u8>, Vec<u8>>),
+}
+
+#[derive(Debug, Clone, PartialEq, Eq)]
+enum Kind {
+    /// committed successfully, B gained exactly all buckets, nothing came back
+    DepositedAll,
+    /// committed successfully, B unchanged, everything came back
+    RefundedAll,
+    /// committed successfully, something else happened (partial deposit, loss, ...)
+    SuccessOther(String),
+    Failed(String),
+    Rejected(String),
+    Panicked(String),
+}
+
+impl Kind {
+    fn label(&self) -> String {
+        match self {
+            Kind::DepositedAll => "deposited-all".into(),
+            Kind::RefundedAll => "refunded-all".into(),
+            Kind::SuccessOther(_) => "success-other".into(),
+            Kind::Failed(_) => "failed".into(),
+            Kind::Rejected(_) => "rejected".into(),
+            Kind::Panicked(_) => "panicked".into(),
+        }
+    }
+}
+
+struct Obs {
+    kind: Kind,
+    /// problems with "only B's vaults of the deposited resources change" (statement-level)
+    frame: Vec<String>,
+    /// written nodes outside A, B, C and their vaults (informational)
+    other_nodes: BTreeSet<String>,
+    rejected_events: usize,
+    returned_buckets: Option<usize>,
+    failure: String,
+}
+
+fn sum_buckets(w: &W, batch: &[Bk]) -> BTreeMap<ResourceAddress, (Decimal, BTreeSet<NonFungibleLocalId>)> {
+    let mut m: BTreeMap<ResourceAddress, (Decimal, BTreeSet<NonFungibleLocalId>)> = BTreeMap::new();
+    for b in batch {
+        match b {
+            Bk::F(r, a) => {
+                let e = m.entry(w.res(*r)).or_default();
+                e.0 = e.0.checked_add(*a).unwrap();
+            }
+            Bk::N(r, id) => {
+                let e = m.entry(w.res(*r)).or_default();
+                e.0 = e.0.checked_add(Decimal::ONE).unwrap();
+                e.1.insert(NonFungibleLocalId::integer(*id));
+            }
+        }
+    }
+    m
+}
+
+/// before + delta == after on amounts and ids, for every resource either side knows
+fn holds_plus(
+    before: &BTreeMap<ResourceAddress, Holding>,
+    delta: &BTreeMap<ResourceAddress, (Decimal, BTreeSet<NonFungibleLocalId>)>,
+    after: &BTreeMap<ResourceAddress, Holding>,
+    skip: Option<ResourceAddress>,
+) -> Result<(), String> {
+    let keys: BTreeSet<ResourceAddress> = before.keys().chain(after.keys()).chain(delta.keys()).copied().collect();
+    for k in keys {
+        if Some(k) == skip {
+            continue;
+        }
+        let z = Holding::default();
+        let b = before.get(&k).unwrap_or(&z);
+        let a = after.get(&k).unwrap_or(&z);
+        let (da, dids) = delta.get(&k).cloned().unwrap_or_default();
+        let want_amt = b.amount.checked_add(da).unwrap();
+        let want_ids: BTreeSet<NonFungibleLocalId> = b.ids.union(&dids).cloned().collect();
+        if a.amount != want_amt || a.ids != want_ids {
+            return Err(format!("resource {k:?}: before {} {:?}, expected change +{da} {dids:?}, after {} {:?}", b.amount, b.ids, a.amount, a.ids));
+        }
+        if before.contains_key(&k) && !after.contains_key(&k) {
+            return Err(format!("resource {k:?}: vault entry disappeared"));
+        }
+        if !delta.contains_key(&k) && before.contains_key(&k) != after.contains_key(&k) {
+            return Err(format!("resource {k:?}: vault entry appeared for a resource that was not deposited"));
+        }
+        if let (Some(vb), Some(va)) = (before.get(&k), after.get(&k)) {
+            if vb.vault != va.vault {
+                return Err(format!("resource {k:?}: vault replaced {:?} -> {:?}", vb.vault, va.vault));
+            }
+        }
+    }
+    Ok(())
+}
+
+impl Cfg {
+    fn pre(&self, sim: &mut Sim) -> Pre {
+        let rd = |sim: &mut Sim, a| holdings(sim, a).unwrap_or_else(|e| mc_core::machinery_error(&format!("cannot read holdings: {e}")));
+        Pre { b_hold: rd(sim, self.w.b), c_hold: rd(sim, self.w.c), a_hold: rd(sim, self.w.a), b_cfg: config_raw(sim, self.w.b) }
+    }
+
+    fn attempt_manifest(&self, at: &Attempt) -> (TransactionManifestV1, Vec<NonFungibleGlobalId>) {
+        let w = &self.w;
+        let batch = &self.batches[at.batch];
+        let mut mb = ManifestBuilder::new().lock_fee(w.a, dec!(20));
+        mb = match at.proof {
+            ProofKind::NoProof => mb,
+            ProofKind::OfBres => mb.create_proof_from_account_of_amount(w.a, w.bres, dec!(1)),
+            ProofKind::OfBnf1 => mb.create_proof_from_account_of_non_fungibles(w.a, w.bnf, [NonFungibleLocalId::integer(1)]),
+            ProofKind::OfBnf2 => mb.create_proof_from_account_of_non_fungibles(w.a, w.bnf, [NonFungibleLocalId::integer(2)]),
+        };
+        let mut names: Vec<String> = vec![];
+        for (i, b) in batch.iter().enumerate() {
+            let name = format!("b{i}");
+            mb = match b {
+                Bk::F(r, a) => mb.withdraw_from_account(w.a, w.res(*r), *a).take_from_worktop(w.res(*r), *a, name.clone()),
+                Bk::N(r, id) => {
+                    let ids = [NonFungibleLocalId::integer(*id)];
+                    mb.withdraw_non_fungibles_from_account(w.a, w.res(*r), ids.clone()).take_non_fungibles_from_worktop(w.res(*r), ids, name.clone())
+                }
+            };
+            names.push(name);
+        }
+        let badge = at.named.map(|b| w.badge(b));
+        mb = match at.method {
+            Method::RefundOne => mb.try_deposit_or_refund(w.b, badge, names[0].clone()),
+            Method::AbortOne => mb.try_deposit_or_abort(w.b, badge, names[0].clone()),
+            Method::RefundBatch => mb.try_deposit_batch_or_refund(w.b, names.clone(), badge),
+            Method::AbortBatch => mb.try_deposit_batch_or_abort(w.b, names.clone(), badge),
+            Method::PlainOne => mb.deposit(w.b, names[0].clone()),
+            Method::PlainBatch => mb.deposit_batch(w.b, names.clone()),
+        };
+        mb = mb.try_deposit_entire_worktop_or_abort(w.c, None);
+        let mut proofs = vec![w.sig_a.clone()];
+        if at.owner {
+            proofs.push(w.sig_b.clone());
+        }
+        (mb.build(), proofs)
+    }
+
+    fn run_attempt(&self, sim: &mut Sim, pre: &Pre, at: &Attempt) -> Obs {
+        let w = &self.w;
+        let batch = &self.batches[at.batch];
+        let (m, proofs) = self.attempt_manifest(at);
+        let n_instr = m.instructions.len();
+        let mut obs = Obs { kind: Kind::Failed(String::new()), frame: vec![], other_nodes: BTreeSet::new(), rejected_events: 0, returned_buckets: None, failure: String::new() };
+        let receipt = match exec(sim, m, proofs) {
+            Ok(r) => r,
+            Err(p) => {
+                obs.kind = Kind::Panicked(format!("{p} @ {}", mc_core::last_panic_location()));
+                return obs;
+            }
+        };
+        obs.failure = failure_text(&receipt);
+        let c = match &receipt.result {
+            TransactionResult::Commit(c) => c,
+            _ => {
+                obs.kind = Kind::Rejected(obs.failure.clone());
+                return obs;
+            }
+        };
+        // events emitted by B
+        for (id, _) in &c.application_events {
+            if let Emitter::Method(node, ModuleId::Main) = &id.0 {
+                if node == w.b.as_node_id() && sim.is_event_name_equal::<RejectedDepositEvent>(id) {
+                    obs.rejected_events += 1;
+                }
+            }
+        }
+        // what B, C, A hold now
+        let b_after = holdings(sim, w.b);
+        let c_after = holdings(sim, w.c);
+        let a_after = holdings(sim, w.a);
+        let (b_after, c_after, a_after) = match (b_after, c_after, a_after) {
+            (Ok(b), Ok(c), Ok(a)) => (b, c, a),
+            (b, c, a) => {
+                obs.kind = Kind::SuccessOther(format!("account state unreadable after the transaction: {:?} {:?} {:?}", b.err(), c.err(), a.err()));
+                return obs;
+            }
+        };
+        let all = sum_buckets(w, batch);
+        let none = BTreeMap::new();
+        let success = matches!(c.outcome, TransactionOutcome::Success(_));
+        let deposited_all = holds_plus(&pre.b_hold, &all, &b_after, None).is_ok() && holds_plus(&pre.c_hold, &none, &c_after, None).is_ok();
+        let refunded_all = holds_plus(&pre.b_hold, &none, &b_after, None).is_ok() && holds_plus(&pre.c_hold, &all, &c_after, None).is_ok();
+        if let TransactionOutcome::Success(outputs) = &c.outcome {
+            // output of the call on B = second to last instruction
+            if let Some(InstructionOutput::CallReturn(bytes)) = outputs.get(n_instr - 2) {
+                obs.returned_buckets = count_owned(bytes).ok();
+            }
+        }
+        obs.kind = if !success {
+            Kind::Failed(obs.failure.clone())
+        } else if batch.is_empty() {
+            // nothing to move: both descriptions coincide
+            if deposited_all {
+                Kind::DepositedAll
+            } else {
+                Kind::SuccessOther("empty batch changed balances".into())
+            }
+        } else if deposited_all {
+            Kind::DepositedAll
+        } else if refunded_all {
+            Kind::RefundedAll
+        } else {
+            let mut d = String::new();
+            if let Err(e) = holds_plus(&pre.b_hold, &all, &b_after, None) {
+                d.push_str(&format!("not a full deposit into B ({e}); "));
+            }
+            if let Err(e) = holds_plus(&pre.b_hold, &none, &b_after, None) {
+                d.push_str(&format!("B changed ({e}); "));
+            }
+            if let Err(e) = holds_plus(&pre.c_hold, &all, &c_after, None) {
+                d.push_str(&format!("not everything came back ({e}); "));
+            }
+            Kind::SuccessOther(d)
+        };
+        // ---- frame: only B's vaults of the deposited resources change ----
+        let cfg_after = config_raw(sim, w.b);
+        if cfg_after != pre.b_cfg {
+            obs.frame.push("B's stored configuration (deposit rule / preferences / authorised depositors) changed".into());
+        }
+        if !success {
+            if let Err(e) = holds_plus(&pre.b_hold, &none, &b_after, None) {
+                obs.frame.push(format!("failed transaction changed B: {e}"));
+            }
+            if let Err(e) = holds_plus(&pre.c_hold, &none, &c_after, None) {
+                obs.frame.push(format!("failed transaction changed C: {e}"));
+            }
+        }
+        // conservation on the source side (XRD excluded: A pays the fee)
+        if success {
+            let mut minus = BTreeMap::new();
+            for (k, (a, ids)) in &all {
+                minus.insert(*k, (a.checked_neg().unwrap(), ids.clone()));
+            }
+            // ids leave A: check amounts only through a dedicated comparison
+            for (k, (da, ids)) in &minus {
+                if *k == XRD {
+                    continue;
+                }
+                let z = Holding::default();
+                let before = pre.a_hold.get(k).unwrap_or(&z);
+                let after = a_after.get(k).unwrap_or(&z);
+                let want_ids: BTreeSet<NonFungibleLocalId> = before.ids.difference(ids).cloned().collect();
+                if after.amount != before.amount.checked_add(*da).unwrap() || after.ids != want_ids {
+                    obs.frame.push(format!("source account A: resource {k:?} before {} after {} (withdrawn {})", before.amount, after.amount, da));
+                }
+            }
+        }
+        // written substates under B, and written nodes elsewhere
+        let t = touched(c, w.b.as_node_id());
+        let deposited_now = matches!(obs.kind, Kind::DepositedAll) && success;
+        let vault_part = vault_partition(sim, w.b);
+        let allowed_keys: BTreeSet<Vec<u8>> = if deposited_now { all.keys().map(|ra| scrypto_encode(ra).unwrap()).collect() } else { BTreeSet::new() };
+        if t.focus_reset {
+            obs.frame.push("a whole partition of B was reset".into());
+        }
+        for (p, k) in &t.focus {
+            let ok = Some(*p) == vault_part && matches!(k, SubstateKey::Map(m) if allowed_keys.contains(m));
+            if !ok {
+                obs.frame.push(format!("B's own substate written: partition {p} key {k:?}"));
+            }
+        }
+        let mut known: BTreeSet<NodeId> = BTreeSet::new();
+        known.insert(*w.a.as_node_id());
+        known.insert(*w.b.as_node_id());
+        known.insert(*w.c.as_node_id());
+        for h in pre.a_hold.values().chain(a_after.values()).chain(pre.c_hold.values()).chain(c_after.values()) {
+            if let Some(v) = h.vault {
+                known.insert(v);
+            }
+        }
+        let b_vaults_allowed: BTreeSet<NodeId> = if deposited_now { all.keys().filter_map(|ra| b_after.get(ra).and_then(|h| h.vault)).collect() } else { BTreeSet::new() };
+        let b_vaults_all: BTreeSet<NodeId> = pre.b_hold.values().chain(b_after.values()).filter_map(|h| h.vault).collect();
+        for n in &t.nodes {
+            if known.contains(n) {
+                continue;
+            }
+            if b_vaults_all.contains(n) {
+                if !b_vaults_allowed.contains(n) {
+                    obs.frame.push(format!("a vault of B for a resource that was not deposited was written: {n:?}"));
+                }
+                continue;
+            }
+            if n.is_internal_vault() {
+                // a vault nobody in this world accounts for (fee/validator vaults are listed informationally)
+                obs.other_nodes.insert(format!("vault:{:?}", n.entity_type()));
+            } else {
+                obs.other_nodes.insert(format!("{:?}", n.entity_type()));
+            }
+        }
+        obs
+    }
+}
+
+fn vault_partition(sim: &Sim, acct: ComponentAddress) -> Option<u8> {
+    radix_engine::system::system_db_reader::SystemDatabaseReader::new(sim.substate_db())
+        .get_partition_of_collection(acct.as_node_id(), ModuleId::Main, AccountCollection::ResourceVaultKeyValue.collection_index())
+        .ok()
+        .map(|p| p.0)
+}
+
+fn method_label(m: Method) -> &'static str {
+    match m {
+        Method::RefundOne => "try_deposit_or_refund",
+        Method::AbortOne => "try_deposit_or_abort",
+        Method::RefundBatch => "try_deposit_batch_or_refund",
+        Method::AbortBatch => "try_deposit_batch_or_abort",
+        Method::PlainOne => "deposit",
+        Method::PlainBatch => "deposit_batch",
+    }
+}
+
+fn matches_exp(exp: Exp, kind: &Kind) -> bool {
+    match exp {
+        Exp::DepositedAllAllowed | Exp::DepositedByBadge => matches!(kind, Kind::DepositedAll),
+        Exp::Refunded => matches!(kind, Kind::RefundedAll),
+        Exp::FailBadgeNotProven | Exp::FailAbort => matches!(kind, Kind::Failed(_)),
+    }
+}
+
+struct Verdict {
+    nontrivial: bool,
+}
+
+impl Cfg {
+    /// Judge one attempt in one state. Violations are recorded on `local`.
+    fn judge(&self, model: &Model, hist: &[Op], at: &Attempt, obs: &Obs, local: &mut Local) -> Verdict {
+        let batch = &self.batches[at.batch];
+        let case = |exp: &str| {
+            json!({
+                "history": hist.iter().map(|o| format!("{o:?}")).collect::<Vec<_>>(),
+                "attempt": format!("{at:?}"),
+                "batch": format!("{batch:?}"),
+                "model": format!("{model:?}"),
+                "expected": exp,
+                "observed": format!("{:?}", obs.kind),
+                "failure": obs.failure,
+                "returned_buckets": obs.returned_buckets,
+                "rejected_deposit_events": obs.rejected_events,
+                "frame": obs.frame,
+            })
+        };
+        let ml = method_label(at.method);
+        local.eval();
+        if let Kind::Panicked(p) = &obs.kind {
+            local.violation(format!("panic:{ml}"), format!("deposit attempt panicked: {p}"), case("no panic"));
+            return Verdict { nontrivial: false };
+        }
+        if let Kind::Rejected(r) = &obs.kind {
+            // the harness pays ample fees from A: a rejection is harness trouble, not a verdict
+            mc_core::machinery_error(&format!("deposit attempt rejected (harness transaction invalid): {r}"));
+        }
+        for o in &obs.other_nodes {
+            local.info(&format!("node written outside A/B/C: {o}"));
+        }
+        // plain deposits, the empty batch: statement-silent
+        if matches!(at.method, Method::PlainOne | Method::PlainBatch) {
+            local.class(&format!("plain-{}:{}", if at.owner { "owner" } else { "no-owner" }, obs.kind.label()));
+            local.info(&format!("plain {ml} {} -> {}", if at.owner { "with owner auth" } else { "without owner auth" }, obs.kind.label()));
+            if !obs.frame.is_empty() {
+                local.info("plain deposit: frame remark");
+            }
+            return Verdict { nontrivial: false };
+        }
+        if batch.is_empty() {
+            local.info(&format!("empty batch ({ml}) -> {}", obs.kind.label()));
+            return Verdict { nontrivial: false };
+        }
+        let e1 = expect(model, at, batch, true);
+        let e2 = expect(model, at, batch, false);
+        let nontrivial = e2 != Exp::DepositedAllAllowed;
+        // frame condition holds in every case
+        if !obs.frame.is_empty() {
+            local.violation(
+                format!("frame:{ml}"),
+                format!("something other than B's vaults of the deposited resources changed: {}", obs.frame.join("; ")),
+                case(e1.label()),
+            );
+            return Verdict { nontrivial };
+        }
+        if e1 != e2 {
+            // "already holds" with an existing but empty vault: either reading is accepted
+            if matches_exp(e1, &obs.kind) {
+                local.info("AllowExisting with an empty vault: engine treats the resource as held");
+                local.class(&format!("{}[empty-vault-ambiguous]", e1.label()));
+            } else if matches_exp(e2, &obs.kind) {
+                local.info("AllowExisting with an empty vault: engine treats the resource as not held");
+                local.class(&format!("{}[empty-vault-ambiguous]", e2.label()));
+            } else {
+                local.violation(
+                    format!("{ml}:expected-{}-or-{}:observed-{}", e1.label(), e2.label(), obs.kind.label()),
+                    "outcome matches neither reading of 'already holds' for an empty vault".to_string(),
+                    case(&format!("{} or {}", e1.label(), e2.label())),
+                );
+            }
+            return Verdict { nontrivial };
+        }
+        let exp = e1;
+        if !matches_exp(exp, &obs.kind) {
+            local.violation(
+                format!("{ml}:expected-{}:observed-{}", exp.label(), obs.kind.label()),
+                format!("decision table says {} but the engine did: {:?}", exp.label(), obs.kind),
+                case(exp.label()),
+            );
+            return Verdict { nontrivial };
+        }
+        // "return all buckets untouched": as many buckets come back as went in
+        if exp == Exp::Refunded {
+            if let Some(n) = obs.returned_buckets {
+                if n != batch.len() {
+                    local.violation(
+                        format!("{ml}:refund-bucket-count"),
+                        format!("{} buckets went in, {n} came back", batch.len()),
+                        case(exp.label()),
+                    );
+                    return Verdict { nontrivial };
+                }
+            } else {
+                local.info("refund: returned value not decodable for bucket count");
+            }
+        }
+        if exp.deposited() {
+            if let Some(n) = obs.returned_buckets {
+                if n != 0 {
+                    local.violation(format!("{ml}:deposit-returned-buckets"), format!("everything deposited but {n} buckets returned"), case(exp.label()));
+                    return Verdict { nontrivial };
+                }
+            }
+        }
+        // events: informational
+        let refused = batch.iter().filter(|b| !model.allowed(b.res(), true)).count();
+        match exp {
+            Exp::Refunded => {
+                if obs.rejected_events == refused {
+                    local.info("refund: one RejectedDepositEvent per refused bucket");
+                } else {
+                    local.info("refund: RejectedDepositEvent count differs from refused buckets");
+                }
+            }
+            Exp::DepositedAllAllowed | Exp::DepositedByBadge => {
+                if obs.rejected_events != 0 {
+                    local.info("deposit succeeded but RejectedDepositEvent emitted");
+                }
+            }
+            _ => {}
+        }
+        local.class(exp.label());
+        local.sample(|| case(exp.label()));
+        Verdict { nontrivial }
+    }
+}
+
+// ------------------------------------------------------------------------------------------------
+// driver
+// ------------------------------------------------------------------------------------------------
+
+fn parse_by_debug<T: std::fmt::Debug + Clone>(all: &[T], s: &str) -> Option<T> {
+    all.iter().find(|x| format!("{x:?}") == s).cloned()
+}
+
+fn replay(ctx: Ctx, m: &Cfg, case: Value) -> ! {
+    let hist: Vec<Op> = case["history"]
+        .as_array()
+        .map(|a| a.iter().filter_map(|s| s.as_str()).map(|s| parse_by_debug(&all_ops(), s).unwrap_or_else(|| mc_core::machinery_error(&format!("unknown op {s}")))).collect())
+        .unwrap_or_default();
+    let st = m.replay(&hist);
+    let mut sim = st.sim;
+    println!("history: {hist:?}\nmodel: {:?}", st.model);
+    let mut local = Local::new();
+    if let Some(a) = case["attempt"].as_str() {
+        let at = parse_by_debug(&all_attempts(), a).unwrap_or_else(|| mc_core::machinery_error(&format!("unknown attempt {a}")));
+        let pre = m.pre(&mut sim);
+        let obs = m.run_attempt(&mut sim, &pre, &at);
+        let batch = &m.batches[at.batch];
+        println!("attempt: {at:?}\nbatch: {batch:?}");
+        if !matches!(at.method, Method::PlainOne | Method::PlainBatch) && !batch.is_empty() {
+            println!("expected: {} (empty vault counted as held) / {} (not held)", expect(&st.model, &at, batch, true).label(), expect(&st.model, &at, batch, false).label());
+        }
+        println!("observed: {:?}\nfailure: {}\nreturned buckets: {:?}\nrejected events: {}\nframe: {:?}", obs.kind, obs.failure, obs.returned_buckets, obs.rejected_events, obs.frame);
+        m.judge(&st.model, &hist, &at, &obs, &mut local);
+    }
+    ctx.merge(local);
+    ctx.finish(Level::ModelChecking, "replay", 0, false, Default::default(), &[])
+}
+
+pub fn run(ctx: Ctx) -> ! {
+    let (root, w) = build_root();
+    let m = Cfg { root, w, batches: batches(), found: Mutex::new(BTreeMap::new()) };
+    if let Some(case) = ctx.read_replay_case() {
+        replay(ctx, &m, case);
+    }
+    let attempts = all_attempts();
+    // ---- layer 1: configuration states ----
+    let (depth, cap_states, wall1) = if ctx.quick() { (2usize, 100_000u64, 20.0) } else { (64usize, 100_000u64, 300.0) };
+    let mut stats = bfs(&ctx, &m, "account-config", depth, cap_states, wall1);
+    let mut states: Vec<Vec<Op>> = vec![vec![]];
+    {
+        let g = m.found.lock().unwrap();
+        let root_fp = m.fingerprint(&m.init());
+        for (fp, h) in g.iter() {
+            if *fp != root_fp {
+                states.push(h.clone());
+            }
+        }
+    }
+    states.sort_by(|a, b| (a.len(), a).cmp(&(b.len(), b)));
+    if states.len() as u64 != stats.states {
+        mc_core::machinery_error(&format!("configuration layer: explorer counted {} states, recorder has {}", stats.states, states.len()));
+    }
+    // ---- layer 2: every attempt in every state ----
+    let chunk = 28usize;
+    let mut items: Vec<(usize, usize)> = vec![];
+    for s in 0..states.len() {
+        let mut i = 0;
+        while i < attempts.len() {
+            items.push((s, i));
+            i += chunk;
+        }
+    }
+    let wall2 = if ctx.quick() { 45.0 } else { 1000.0 };
+    let t0 = std::time::Instant::now();
+    let skipped = std::sync::atomic::AtomicU64::new(0);
+    let nontrivial = std::sync::atomic::AtomicU64::new(0);
+    let done = std::sync::atomic::AtomicU64::new(0);
+    par_for(&ctx, &items, |(s, i0), local| {
+        if t0.elapsed().as_secs_f64() > wall2 {
+            skipped.fetch_add(1, std::sync::atomic::Ordering::Relaxed);
+            return;
+        }
+        let hist = &states[*s];
+        let st = m.replay(hist);
+        let mut sim = st.sim;
+        let snap = sim.create_snapshot();
+        let pre = m.pre(&mut sim);
+        for at in attempts.iter().skip(*i0).take(chunk) {
+            let obs = m.run_attempt(&mut sim, &pre, at);
+            let v = m.judge(&st.model, hist, at, &obs, local);
+            if v.nontrivial {
+                nontrivial.fetch_add(1, std::sync::atomic::Ordering::Relaxed);
+            }
+            done.fetch_add(1, std::sync::atomic::Ordering::Relaxed);
+            sim.restore_snapshot(snap.clone());
+        }
+    });
+    let skipped = skipped.into_inner();
+    let done = done.into_inner();
+    let config_transitions = stats.transitions;
+    stats.transitions += done;
+    let mut cov = stats.coverage();
+    cov.insert("config_states".into(), json!(states.len()));
+    cov.insert("config_transitions".into(), json!(config_transitions));
+    cov.insert("deposit_attempts_per_state".into(), json!(attempts.len()));
+    cov.insert("deposit_attempts_executed".into(), json!(done));
+    cov.insert("attempt_chunks_skipped_by_wall_cap".into(), json!(skipped));
+    cov.insert("config_ops".into(), json!(all_ops().iter().map(|o| format!("{o:?}")).collect::<Vec<_>>()));
+    cov.insert("batches".into(), json!(m.batches.iter().map(|b| format!("{b:?}")).collect::<Vec<_>>()));
+    cov.insert("fixpoint_reached".into(), json!(!stats.capped && stats.depth_completed >= depth && depth > 8));
+    let exhaustive = !stats.capped && skipped == 0;
+    ctx.finish(
+        Level::ModelChecking,
+        "breadth-first over configuration histories of a real account (states merged by raw stored configuration incl. removed entries + model configuration); in every configuration state every deposit attempt (method x batch x named badge x proof) is executed on the engine and compared with the statement's decision table evaluated on the model; non-trivial = attempts with at least one refused bucket",
+        nontrivial.into_inner(),
+        exhaustive,
+        cov,
+        &[
+            "latest protocol version (refund variants return the buckets when the named badge is not listed)",
+            "resources: XRD, one fungible R1, one non-fungible R2; badges: one resource badge, one non-fungible badge (#1 listed / #2 as wrong proof)",
+            "only R1 has a holding history (never / held / emptied); B never holds XRD or R2",
+            "RejectedDeposit events, plain deposits, the empty batch, nodes written outside the three accounts are informational",
+        ],
+    )
 }
